@@ -115,7 +115,7 @@ def run():
         if d1 != d2 and (n1 != t3.SYS[d1][-1] or n2 != t3.SYS[d2][0]):
             continue
         for nm, f in binm.items():
-            if d1 == d2 and nm not in ("add", "+", "dot", "@", "equal", "==", "not_equal", "!=", "boost_p4", "boost_beta3", "boost", "cross", "rotate_axis") and (m1 or m2):
+            if d1 == d2 and nm not in ("add", "+", "subtract", "-", "dot", "@", "equal", "==", "not_equal", "!=", "boost_p4", "boost_beta3", "boost", "cross", "rotate_axis") and (m1 or m2):
                 continue   # flavor does not enter scalar results: keep the lattice small
             recs["binary"].append({"a": a_key, "b": b_key, "name": nm,
                                    "out": A.call(lambda: f(A.make(d1, n1, m1, "a"), A.make(d2, n2, m2, "b")))})
@@ -130,13 +130,17 @@ def run():
                 def do():
                     a, b = A.make(d1, n1, m1, "a"), A.make(d2, n2, m2, "b")
                     a0 = a
-                    if op == "+=":
-                        a += b
-                    else:
-                        a -= b
-                    return (a, a is a0)
-                out = A.call(do)
-                recs["inplace"].append({"a": src_key(d1, n1, m1), "b": src_key(d2, n2, m2), "op": op, "out": out})
+                    try:
+                        if op == "+=":
+                            a += b
+                        else:
+                            a -= b
+                    except S.TraceAbort:
+                        raise
+                    except Exception as e:
+                        return (a0, True, type(e).__name__)
+                    return (a, a is a0, "")
+                recs["inplace"].append({"a": src_key(d1, n1, m1), "b": src_key(d2, n2, m2), "op": op, "out": A.call(do)})
         for op in ("*=", "/="):
             def do2():
                 a = A.make(d1, n1, m1, "a")
@@ -145,7 +149,7 @@ def run():
                     a *= K("k")
                 else:
                     a /= K("k")
-                return (a, a is a0)
+                return (a, a is a0, "")
             recs["inplace"].append({"a": src_key(d1, n1, m1), "b": None, "op": op, "out": A.call(do2)})
     return recs
 
@@ -155,8 +159,9 @@ def describe_tuple_fix(recs):
     for r in recs["inplace"]:
         o = r["out"]
         if o.get("kind") == "tuple":
-            vec, flag = o["items"]
+            vec, flag, exc = o["items"]
             vec["same_object"] = flag.get("expr") == ["constb", True]
+            r["raised"] = exc.get("expr", ["str", ""])[1] if exc.get("kind") == "scalar" else ""
             r["out"] = vec
 
 
